@@ -197,7 +197,7 @@ func (h *orderHarness) Gen(r *Rand, tier string, clean bool) any {
 	u := genUniverseZ(r, r.Range(5, 14), r.Chance(0.4), false, false)
 	for i := 0; i < 4; i++ {
 		t := u[r.Intn(len(u))]
-		u = append(u, TSpec{t[0], t[1], []int{6, 7, 8, 9, 10, 11, 26, 27, 21, 22}[r.Intn(10)]})
+		u = append(u, TSpec{t[0], t[1], []int{6, 7, 8, 9, 10, 11, 26, 27, 21, 22, 33, 34, 35, 29, 30}[r.Intn(15)]})
 	}
 	if r.Bool() {
 		// anchors within one second, printed with different precision
@@ -510,10 +510,27 @@ func (h *invarHarness) Gen(r *Rand, tier string, clean bool) any {
 	for i := 0; i < 3; i++ {
 		c.Extra = append(c.Extra, TSpec{r.Intn(V.NodesClean), r.Intn(V.PredsClean), r.Intn(V.ObjsClean)})
 	}
-	o := sopts{qopts: qopts{clean: true, maxClauses: 3, aliases: 0.25, bounds: 0.3, crossKind: 0.1, optional: 0.15}, group: 0.15}
+	o := sopts{qopts: qopts{clean: true, maxClauses: 3, aliases: 0.25, bounds: 0.3, crossKind: 0.1, optional: 0.15}, group: 0.15, global: 0.25}
 	st := genSelect(r, u, []string{"?g0"}, o)
 	c.Q = st.Q
 	c.Q.From = []string{"?g0"}
+	if r.Chance(0.1) {
+		// a clause all of whose bindings are bound by the other clause, under global time bounds: whichever strategy the
+		// planner picks for it (existence test, per-row fetch, full fetch + join) the bounds apply
+		pi := []int{2, 3, 4, 5}[r.Intn(4)]
+		for i := 0; i < 2; i++ {
+			t := u[r.Intn(len(u))]
+			c.U = dedupSpecs(append(c.U, TSpec{t[0], pi, t[2]}))
+		}
+		c.Q = &Query{From: []string{"?g0"}, Where: []QClause{{S: Tm{K: "b", B: "?s"}, P: Tm{K: "b", B: "?p"}, O: Tm{K: "b", B: "?o"}},
+			{S: Tm{K: "b", B: "?s"}, P: Tm{K: "p", I: pi}, O: Tm{K: "b", B: "?o"}}}, Proj: []Proj{{B: "?s"}, {B: "?p"}, {B: "?o"}}}
+		a := Anchors[r.Intn(len(Anchors))].UnixNano()
+		if r.Bool() {
+			c.Q.Before = &a
+		} else {
+			c.Q.After = &a
+		}
+	}
 	if r.Chance(0.12) {
 		// time bounds taken from bindings of an earlier clause: every row has its own window
 		for _, pi := range []int{2, 3, 4, 9, 10} {
